@@ -210,6 +210,38 @@ func runC15(c *sim.Ctx) *sim.Violation {
 			return sim.V("C15/public-api/subscription-identifier/round-trip", "SUBSCRIBE with subscription identifier %d does not read back: %s", v, o)
 		}
 	}
+	// several subscription identifiers in one PUBLISH: each is decoded by the same
+	// in-memory decoder, one after the other
+	{
+		n := 2 + t.Int(4)
+		var ids []uint32
+		a := &ref.AP{Type: ref.Publish, Topic: []byte("t")}
+		for i := 0; i < n; i++ {
+			id := c15Bounds[1+t.Int(len(c15Bounds)-1)]
+			if t.Bool(1, 2) {
+				id = uint32(1 + t.Int(268435455))
+			}
+			ids = append(ids, id)
+			a.Props = append(a.Props, ref.Prop{ID: 0x0B, N: id})
+		}
+		frame, _ := ref.Encode(a)
+		o := ReadOne(link.NewReader(c, frame, link.Mode{}))
+		if o.Kind != "packet" {
+			return sim.V("C15/public-api/subscription-identifiers-in-publish/rejected", "PUBLISH with subscription identifiers %v (%x): %s", ids, frame, o)
+		}
+		got := o.P.(*mq.Publish).SubscriptionIDs()
+		if fmt.Sprint(got) != fmt.Sprint(ids) {
+			return sim.V("C15/public-api/subscription-identifiers-in-publish/values", "PUBLISH frame %x carries subscription identifiers %v, decoded %v", frame, ids, got)
+		}
+		pb := mq.NewPublish()
+		pb.SetTopicName("t")
+		for _, id := range ids {
+			pb.AddSubscriptionID(id)
+		}
+		if b, err, pi := encodeReal(pb); err == nil && pi == nil && !bytes.Equal(b, frame) {
+			return sim.V("C15/public-api/subscription-identifiers-in-publish/encoding", "PUBLISH with subscription identifiers %v encodes as %x, the specification gives %x", ids, b, frame)
+		}
+	}
 	rlTarget := []int{0, 1, 127, 128, 129, 16383, 16384, 16385, 70000}[t.Int(9)]
 	if rlTarget >= 5 {
 		pub := mq.NewPublish()
